@@ -7,7 +7,8 @@
    arbitrary non-negative function (an oracle for the f32 haversine).  "Beyond" / "strictly within" the tolerance
    refer to the tolerance converted to metres by the exact SI factor of its unit, with the relative band
    [unit_band] = 5e-4 that covers the decimal conversion constants of the code (worst: Meters->Miles, 2.2e-4);
-   the boundary itself is left open, as in the property.  Tolerance theorems are about the exact-rational
+   inside the band nothing is claimed in those units; in Meters (no conversion) the rule is exact and inclusive for
+   both matchers, [c16_tolerance_inclusive]: distance <= tolerance matches, equality included.  Tolerance theorems are about the exact-rational
    reading [QN] of the model text that is executed in binary64 next to the code.
 
    This file contains only statements: each theorem is closed by [exact] of a lemma proved in Proofs/. *)
@@ -76,6 +77,22 @@ Theorem c16_tolerance_semantics_edge : forall nn_iter, iter_spec nn_iter ->
       exists e, match_edge QN gc nn_iter es None lookup truck_ok rcq p = Ok e
                 /\ adm_minimal es truck_ok vc p e).
 Proof. exact edge_tolerance_full. Qed.
+
+(* AT the tolerance: one inclusive rule for both matchers.  With the tolerance in Meters (no conversion factor) the
+   tolerance test is exactly `distance <= tolerance`; a candidate whose distance EQUALS the tolerance is matched
+   (so tolerance 0 exactly on a candidate matches) *)
+Theorem c16_tolerance_inclusive : forall (gc : point -> point -> Q),
+  (forall src dst t, in_range src = true -> in_range dst = true ->
+     validate_tolerance QN gc src dst (Some (t, Meters)) = if Qle_bool (gc src dst) t then Ok tt else Err e_failed)
+  /\ (forall d t, within_tolerance QN (Some (t, Meters)) d = Qle_bool d t)
+  /\ (forall nn vs p v, nn p vs = Some v -> in_range p = true -> in_range (cpt v) = true ->
+      match_vertex QN gc nn vs (Some (gc p (cpt v), Meters)) p = Ok v)
+  /\ (forall p c, in_range p = true -> in_range (cpt c) = true ->
+      decide QN gc (Some (gc p (cpt c), Meters)) p c = Ok (Some c)).
+Proof.
+  intros gc. split; [exact (validate_tolerance_meters gc)|]. split; [exact within_tolerance_meters|].
+  split; [exact (match_vertex_at_tolerance gc) | exact (decide_edge_at_tolerance gc)].
+Qed.
 
 (* the same at the level of `process`: an origin (or destination) whose nearest candidates are all beyond the
    tolerance makes the whole query an error, and the failing coordinate's match is not written; origin and
@@ -279,6 +296,7 @@ Print Assumptions c16_nearest_minimal.
 Print Assumptions c16_edge_match_first_admissible.
 Print Assumptions c16_tolerance_semantics_vertex.
 Print Assumptions c16_tolerance_semantics_edge.
+Print Assumptions c16_tolerance_inclusive.
 Print Assumptions c16_vertex_process_beyond.
 Print Assumptions c16_vertex_process_within.
 Print Assumptions c16_edge_process_beyond.
